@@ -13,6 +13,8 @@ NOTE = ("Trusted base: Go type checker, go/cfg, go/ssa and VTA of golang.org/x/t
 CLAIMED = {
  "C01": ("4 (C01)", "custom static analysis: SSA forward taint with local-cell tracking and parameter-to-sink summaries over static calls; who-writes check of Statement.Vars with must-pass pairing to BindVarTo; loop-iteration path enumeration for one-bind-per-element",
    "Static, all-functions of clause/gorm/callbacks: no flow from a value-role field, the AddVar variadic, BuildCondition args or a field.ValueOf result into a text sink (WriteString/WriteByte/WriteQuoted/QuoteTo, SQL-text or identifier fields) - values leave only through AddVar/BindVarTo; every writer of Statement.Vars is an append of one value followed on every path by BindVarTo of that value, a reset, an adoption, the NamedArg surplus arm or a scratch statement; every element-binding loop calls AddVar exactly once per iteration and empty-slice arms write NULL / bind nil. Placeholder/value alignment for every chain and third-party dialectors are NOT decided."),
+ "C02": ("4 (C02)", "custom static analysis: SSA slice-contributor analysis (append/copy) of MergeClause results, sibling check of parenthesisation decision sites over raw-SQL unit types, shared empty-form rule",
+   "Static, narrow: merging list-carrying clauses keeps both the earlier and the new units; every parenthesisation decision in package clause treats clause.Expr and clause.NamedExpr alike (found and fixed the NOT + named-argument defect); empty condition forms add no clause. The selected row set, three-valued logic and the AND/OR substring test itself are NOT decided."),
  "C04": ("4 (C04)", "custom static analysis: symbolic path enumeration of (*DB).Transaction and the Commit/Rollback/SavePoint/RollbackTo wrappers with per-node fact snapshots, go/cfg guard facts in the deferred closures, SSA flow of BeginTx results",
    "Static, all-paths: the user function of a Transaction block is called only after a deferred rollback of the begun handle (or of the save point just taken, same name) is registered and only when Begin/SavePoint succeeded; the rollback is conditioned on flag || named-result error with the flag cleared only after the function returned; success commits and returns Commit().Error through the named result, error paths never commit; Begin installs every transaction it begins as the derived handle's pool; Commit/Rollback forward or report ErrInvalidTransaction on every path; SavePoint/RollbackTo restore the prepared-statement pool on every path. What the database does on COMMIT/ROLLBACK is NOT decided."),
  "C05": ("4 (C05)", "custom static analysis: registration-sequence check, symbolic path enumeration of the transaction callbacks, go/cfg guard-fact dominance of every effect site (with SSA effect summaries), SSA error-flow discipline with a repository-specific sink list, SSA origin of nested-call receivers",
@@ -25,14 +27,22 @@ CLAIMED = {
    "Static, all-sites: every pipeline statement build is preceded by the application of the model's Query/Update/Delete clauses; relation joins and join-table association look-ups apply the joined model's query clauses; Statement.Unscoped becomes true only through the user API, is otherwise copied from the parent, library Unscoped() calls are guarded and nested sessions propagate it; the soft-delete query modifier regroups lone-OR conditions before adding its filter, only when not Unscoped and once, with the marker; the delete modifier rewrites to a filtered UPDATE and the delete executor does not rebuild over it. Database-side precedence and third-party plugins are NOT decided."),
  "C09": ("4 (C09)", "custom static analysis: go/cfg guard-fact dominance with call-induced kills + symbolic path enumeration of the guard function + sibling check of all WHERE-adding sites",
    "Static, all-paths: every UPDATE/DELETE driver call is dominated by the missing-WHERE guard and by an Error == nil test made after it; path enumeration over the guard shows it raises ErrMissingWhereClause on some path and that every non-raising path carries AllowGlobalUpdate, an earlier error, or 'WHERE present and (soft-delete marker absent or >1 expressions)'; every WHERE clause added from user conditions or model keys is guarded by non-emptiness / non-zero key and BuildCondition yields nothing for empty input; the soft-delete filter is always paired with the marker the guard reads. Necessary conditions only: whether a user condition is effective at run time is not decided."),
+ "C10": ("4 (C10)", "custom static analysis: call-site flag check of SelectAndOmitColumns per kind of write, control-dependence of every column emission on a selection-map lookup (with guarded accumulators), go/cfg guard facts in SelectAndOmitColumns/ConvertToAssignments/Save, CFG reachability for ordering",
+   "Static, all-sites: INSERT builders require create permission, the UPDATE builder update permission, the upsert expansion both, association savers (create, !create); every column emitted into VALUES/SET/DoUpdates is control-dependent on a lookup in the selection map (directly or through an accumulator filled only under such a lookup); permission tags override Select/Omit and are applied after them; update-time tracking is guarded by !SkipHooks and UpdateColumn(s) set SkipHooks; Save adds '*' only without a user selection. The cell-level write set and matching rows are NOT decided."),
+ "C12": ("4 (C12)", "custom static analysis: classification of association-mode Delete calls by the model type their argument is built from, go/cfg guard facts, constant-nil check of detaching maps",
+   "Static, narrow: in association mode a record of the related model is deleted only under Unscope; join-row deletions are link deletions; non-unscoped arms detach with all-nil foreign-key maps. Which links exist after a sequence of operations is NOT decided."),
  "C13": ("4 (C13)", "custom static analysis: table agreement over constants/switch labels/struct fields/interfaces/call sites, go/cfg guard facts at hook and callMethod sites, CFG reachability for order, loop-iteration path enumeration for once-per-element",
    "Static, all-sites: the six hook-name tables agree; each hook invocation sits in a closure handed to callMethod by an executor of the right pipeline on the right side of the statement, under its Schema flag, with callMethod guarded by !SkipHooks and Error == nil and the hook error recorded; BeforeSave first / AfterSave last inside a phase and hooks around the statement in the pipeline; callMethod hands hooks a session of the operation's handle, calls the hook exactly once per element with CurDestIndex bookkeeping and only when the whole value has no hook; UpdateColumn(s) set SkipHooks before executing. What a user hook does is NOT decided."),
  "C14": ("4 (C14)", "custom static analysis: lock-set data-flow on go/cfg (held/deferred states, joins), lock-state requirements for map accesses / blocking operations, event-fact dominance and must-pass on prepare, sibling check of the ErrBadConn arms and transaction wrappers",
    "Static, all-paths: Mux acquisitions are released exactly once on every path and never nested; no receive or driver call happens under the lock; every access to a Stmts map/field holds the lock (found and fixed the unlocked read in Session); the in-progress entry protocol of prepare (nil-map guard, deferred close on every exit after insertion, failure recorded and evicted, cache hits wait and check prepareErr); all four ErrBadConn arms evict and close; Close/Reset close entries after preparation and replace the map; transaction wrappers run only through Tx.StmtContext on the same cache. Linearizability, liveness of database/sql and the Session(PrepareStmt) generation split are NOT decided."),
+ "C15": ("4 (C15)", "custom static analysis: SSA who-writes of RaiseErrorOnNotFound, guard facts and reachability at the ErrRecordNotFound raise site, sibling/loop-iteration check of rows.Scan vs RowsAffected++",
+   "Static, narrow: only First/Take/Last arm not-found (each Limit(1) + query pipeline, First/Last ordered by primary key asc/desc); ErrRecordNotFound is raised only in gorm.Scan under RowsAffected == 0 && armed && no error, after the row loops; every rows.Scan under rows.Next() is paired with exactly one RowsAffected++ and the counter is reset first. Equality of the read paths' row sets, FindInBatches arithmetic and Limit merge rules are NOT decided."),
  "C16": ("4 (C16)", "custom static analysis: copy-obligation check (attrs/assigns), SSA static call-closure reachability to pipeline accessors, symbolic path enumeration of FirstOrCreate, go/cfg guard facts on Save",
    "Static, all-paths: attrs/assigns survive every statement derivation (clone) and are stored on the derived instance; FirstOrInit's static call closure in package gorm reaches only the query pipeline, whose executors issue only query-type driver calls; every path through FirstOrCreate performs at most one write, Create only when the lookup matched nothing and did not fail, Updates only for a found record with Assign values; Save's insert fallback is an OnConflict{UpdateAll} upsert guarded by no-error/no-rows/!DryRun/no-selection. Found and fixed the upstream defect that Session/WithContext dropped Attrs/Assign. Convergence of table contents is not decided."),
  "C18": ("4 (C18)", "custom static analysis: SSA backward value-origin of every driver-call context argument with recursive caller check, taint of context.Background/TODO results, who-writes Statement.Context, Session-literal check",
    "Static, all-sites: the context argument of every driver call derives (SSA value origin) from Statement.Context of the statement whose pool is called or from a merely forwarded context parameter whose callers do; context.Background/TODO results flow only into logger calls and Open's root statement; every Statement literal with a pool takes its parent's Context and the only other writer of Statement.Context is Session storing a non-nil Session.Context; library Session literals that set Context use the context of the handle they derive from; no context-less database/sql method is called. That database/sql honours a cancelled context is assumed."),
+ "C20": ("4 (C20)", "custom static analysis: SSA call-closure reachability from AutoMigrate through static calls and in-tree gorm.Migrator implementations, constant-string scan for destructive SQL templates, go/cfg guard facts on the additive DDL calls",
+   "Static, narrow: no destructive migrator method or destructive SQL template is reachable from AutoMigrate (DropConstraint via MigrateColumnUnique exempt); CreateTable/AddColumn/CreateConstraint/CreateIndex run only under the matching negative existence test of the same name and MigrateColumn only for a found column. Whether MigrateColumn decides 'no change', dialect migrators outside the tree and preservation of rows by ALTER are NOT decided."),
  "C19": ("4 (C19)", "custom static analysis: go/cfg guard-fact dominance + SSA value-origin + who-may-call over resolved callees",
    "Static, all-paths: every statement/prepare driver call in a registered executor is dominated by !DryRun; statement driver calls exist only in executors, pool wrappers and the transaction API; each executor sends exactly Statement.SQL.String()/Statement.Vars of its own statement; Execute keeps SQL/Vars after a dry run; sub-queries render on a DryRun session; ToSQL's session sets DryRun+SkipDefaultTransaction, Session propagates them and the implicit-transaction callbacks honour SkipDefaultTransaction. Necessary conditions only: equality of dry-run and executed text for data-dependent statements is not decided."),
 }
